@@ -27,6 +27,9 @@ TABLE = [
     (C("Madgwick", "MARG", gain="high"), {"gain": 0.5}, (0, 0, 1), (1 / S5, 0, 2 / S5), "B", 3000, 2e-2, "stream"),
     (C("Mahony", "IMU"), {}, (0, 0, 1), None, "B", 8000, 1e-3, "batch"),
     (C("Mahony", "MARG"), {}, (0, 0, 1), (0, 1 / S5, 2 / S5), "B", 50000, 1.5e-3, "batch"),
+    # a brisk proportional gain at a low rate (k_P Dt = 0.4: well inside the stable range k_P Dt < 2 of the explicit step)
+    (C("Mahony", "IMU", gain="high"), {"k_P": 10.0, "frequency": 25.0}, (0, 0, 1), None, "B", 6000, 1e-3, "batch"),
+    (C("Mahony", "MARG", gain="high"), {"k_P": 10.0, "frequency": 25.0}, (0, 0, 1), (0, 1 / S5, 2 / S5), "B", 12000, 3e-3, "batch"),
     (C("EKF", "IMU", frame="NED"), {}, (0, 0, 1), None, "B", 3000, 1e-3, "batch"),
     (C("EKF", "MARG", frame="NED"), {"magnetic_ref": DIPDEG}, (0, 0, 1), (1 / S5, 0, 2 / S5), "B", 20000, 1e-3, "batch"),
     (C("EKF", "MARG", frame="ENU"), {"magnetic_ref": DIPDEG}, (0, 0, -1), (0, 1 / S5, -2 / S5), "B", 20000, 1e-3, "batch"),
@@ -55,7 +58,7 @@ def qmul(p, q):
 def one_run(args):
     ti, u, axis, deg, seed, silent = args
     cfg, extra, gref, href, typ, budget, tol, route = TABLE[ti]
-    cname = name_of(cfg) + ("|" + "|".join("%s=%s" % kv for kv in sorted(extra.items()) if kv[0] in ("gain",)) if extra else "")
+    cname = name_of(cfg) + ("|" + "|".join("%s=%s" % kv for kv in sorted(extra.items()) if kv[0] in ("gain", "k_P", "frequency")) if extra else "")
     t = Tally()
     t.traces = []
     R = core.g_rot(u)
